@@ -357,7 +357,18 @@ structure AuthReq where
   redirBase : Bytes
   redirQuery : List (Bytes × Bytes) := []
   state : Bytes := []
+  /-- html/template's URL filter on the form action (library parameter): the redirect URI is kept when
+      its text has no scheme or the scheme http / https / mailto, otherwise the action is written as
+      `#ZgotmplZ` -/
+  actionKept : Bool := true
   deriving DecidableEq, Repr
+
+/-- what html/template writes instead of a URL it does not trust -/
+def zgotmpl : Bytes := asc "#ZgotmplZ"
+
+/-- target and own query of the form_post document -/
+def formTarget (ar : AuthReq) : Bytes := if ar.actionKept then ar.redirBase else zgotmpl
+def formQuery (ar : AuthReq) : List (Bytes × Bytes) := if ar.actionKept then ar.redirQuery else []
 
 def mFormPost : Bytes := asc "form_post"
 def mFragment : Bytes := asc "fragment"
@@ -386,8 +397,8 @@ def writeAuthorizeError (cfg : Cfg) (ar : AuthReq) (err : GoErr) : Response :=
   else
     let errors := setValue (toValues e) kState ar.state
     if ar.mode = mFormPost then
-      { status := 200, headers := setHeader h hCT ctHTML, bodyKind := .html, target := ar.redirBase,
-        fields := strFields .query ar.redirQuery ++ strFields .form errors }
+      { status := 200, headers := setHeader h hCT ctHTML, bodyKind := .html, target := formTarget ar,
+        fields := strFields .query (formQuery ar) ++ strFields .form errors }
     else if ar.mode = mFragment then
       { status := 303, headers := setHeader h hLocation "*", bodyKind := .empty, target := ar.redirBase,
         fields := strFields .query ar.redirQuery ++ strFields .fragment errors }
@@ -401,8 +412,8 @@ def writeAuthorizeError (cfg : Cfg) (ar : AuthReq) (err : GoErr) : Response :=
 def writeAuthorizeResponse (ar : AuthReq) (respHeaders : Headers) (params : List (Bytes × Bytes)) : Response :=
   let h := setCache (copyHeaders respHeaders)
   if ar.mode = mFormPost then
-    { status := 200, headers := addHeader h hCT ctHTML, bodyKind := .html, target := ar.redirBase,
-      fields := strFields .query ar.redirQuery ++ strFields .form params }
+    { status := 200, headers := addHeader h hCT ctHTML, bodyKind := .html, target := formTarget ar,
+      fields := strFields .query (formQuery ar) ++ strFields .form params }
   else if ar.mode = mQuery ∨ ar.mode = [] then
     let set := firstPerKey params
     { status := 303, headers := setHeader h hLocation "*", bodyKind := .empty, target := ar.redirBase,
